@@ -217,6 +217,41 @@ func runC20(c *Ctx) {
 			}
 		} else {
 			detail = fmt.Sprintf("expected one ComponentRunnable.Close call site in App.Close, found %d", len(closeCalls))
+			// third spelling: `for _, comp := range slices.Backward(app.components)` — the loop body is
+			// a yield closure; it must close the yielded element and never stop the iteration early
+			backward := false
+			for _, ci := range CallsIn(closeFn) {
+				if o := CalleeObj(ci.Common()); o != nil && o.Pkg() != nil && o.Pkg().Path() == "slices" && o.Name() == "Backward" && len(ci.Common().Args) == 1 && IsLoadOfField(ci.Common().Args[0], compField) {
+					backward = true
+				}
+			}
+			if backward && len(closeCalls) == 0 {
+				for _, a := range closeFn.AnonFuncs {
+					cc := CallSinks(a, CalleeIs(mClose), false)
+					if len(cc) != 1 || len(a.Params) < 2 {
+						continue
+					}
+					// the receiver is the yielded element asserted to ComponentRunnable
+					okRecv := false
+					if vals, _ := Origins(cc[0].(*ssa.Call).Call.Value); len(vals) == 1 {
+						if ex, isEx := vals[0].(*ssa.Extract); isEx && ex.Index == 0 {
+							if ta, isTA := ex.Tuple.(*ssa.TypeAssert); isTA && types.Identical(ta.AssertedType, runnable) && originatesFromParam(ta.X, a.Params[len(a.Params)-1]) {
+								okRecv = true
+							}
+						}
+					}
+					noBreak := true
+					for _, ri := range Returns(a) {
+						if b, isC := BoolConst(ri.(*ssa.Return).Results[0]); !isC || !b {
+							noBreak = false
+						}
+					}
+					if okRecv && noBreak {
+						ok = true
+						detail = "App.Close ranges over slices.Backward(components) and closes every yielded runnable component, no early exit"
+					}
+				}
+			}
 		}
 		c.Check(ok, "C20.2-close-reverse", "app.(*App).Close|reverse-countdown", p.Pos(closeFn.Pos()), detail)
 	}
